@@ -119,6 +119,30 @@ theorem schedule_length_le (inmem : Bool) (d0 : Bytes) (ws : List Bytes) (sched 
   simp only [measure, init] at this
   omega
 
+/-- **Every maximal run delivers.** A run that cannot be extended (no action of producer or consumer is enabled) has
+    returned from `await_real_file`, and the destination holds the initial bytes followed by every written byte, once and in
+    order. Together with `schedule_length_le` (no schedule executes more than `2·writes + 4` steps) this is liveness under
+    every fair and unfair interleaving: the protocol cannot stop anywhere else and cannot run forever. -/
+theorem every_maximal_run_delivers (inmem : Bool) (d0 : Bytes) (ws : List Bytes) (sched : List Act) (s' : St)
+    (hr : run (init inmem d0 ws) sched = some s') (hmax : ∀ a, step s' a = none) :
+    s'.cpc = .done (d0 ++ ws.flatten) := by
+  rcases never_deadlocks inmem d0 ws sched s' hr with ⟨d, hd⟩ | ⟨a, s'', hs⟩
+  · rw [hd, (delivers_every_byte_once_in_order inmem d0 ws sched s' hr).2 d hd]
+  · rw [hmax a] at hs; cases hs
+
+/-- **The delivered bytes do not depend on the interleaving or on the staging mode**: two runs of the same producer history
+    that have returned from `await_real_file` — under any two schedules, staging in memory in one and in a temp file in the
+    other — hold the same destination. -/
+theorem two_finished_runs_agree (inmem₁ inmem₂ : Bool) (d0 : Bytes) (ws : List Bytes) (sched₁ sched₂ : List Act) (s₁ s₂ : St)
+    (d₁ d₂ : Bytes) (h₁ : run (init inmem₁ d0 ws) sched₁ = some s₁) (h₂ : run (init inmem₂ d0 ws) sched₂ = some s₂)
+    (e₁ : s₁.cpc = .done d₁) (e₂ : s₂.cpc = .done d₂) : d₁ = d₂ := by
+  rw [(delivers_every_byte_once_in_order inmem₁ d0 ws sched₁ s₁ h₁).2 d₁ e₁,
+      (delivers_every_byte_once_in_order inmem₂ d0 ws sched₂ s₂ h₂).2 d₂ e₂]
+
+/-- Non-vacuity of `every_maximal_run_delivers`: the end state of the concrete run below enables no action. -/
+example : ((run (init false [9] [[1], [2, 3]]) [.pUpdate, .pWrite, .cSwitch, .pUpdate, .pWrite, .pDrop, .cTake, .cSwap]).map
+    (fun s => [Act.pUpdate, .pWrite, .pDrop, .cSwitch, .cTake, .cSwap].all (fun a => (step s a).isNone))) = some true := by decide
+
 /-- Non-vacuity: a concrete interleaving (switch lands between two writes, temp-file staging) runs to the end. -/
 example : (run (init false [9] [[1], [2, 3]]) [.pUpdate, .pWrite, .cSwitch, .pUpdate, .pWrite, .pDrop, .cTake, .cSwap]).map (·.cpc)
     = some (.done [9, 1, 2, 3]) := by decide
